@@ -178,3 +178,39 @@ def chain_mem_scripts(scripts, pre_len, crates=(2, 3), group=25):
     if cur:
         out.append(cur)
     return out
+
+
+def bulkify(scripts, r):
+    """The same histories through the bulk entry point crate::add_tracks(first, last): every maximal run of consecutive successful
+    add_track calls on one crate becomes ONE add_tracks call whose range names those tracks in order - and, seed-chosen, some of them
+    a second time (Library!AddTracks: an id that occurs twice is added once and keeps its first place).  Scripts without any
+    add_track are dropped."""
+    out = []
+    for sc in scripts:
+        new, i, changed = [], 0, False
+        while i < len(sc):
+            o = sc[i]
+            if o.get("op") == "add_track" and o.get("exp", "ok") == "ok" and not o.get("probe"):
+                j = i
+                ts = []
+                while j < len(sc) and sc[j].get("op") == "add_track" and sc[j].get("c") == o.get("c") and sc[j].get("exp", "ok") == "ok" \
+                        and not sc[j].get("probe"):
+                    ts.append(sc[j]["t"])
+                    j += 1
+                shape = r.randrange(4)
+                if shape == 0:
+                    ts = ts + [ts[0]]                       # the first one again at the end
+                elif shape == 1:
+                    ts = [ts[-1]] + ts                      # the last one already in front (takes the front place)
+                elif shape == 2:
+                    ts = [t for t in ts for _ in (0, 1)]    # every one twice in a row
+                b = {"op": "add_tracks", "c": o["c"], "ts": ts, "exp": "ok"}
+                new.append(b)
+                changed = True
+                i = j
+            else:
+                new.append(o)
+                i += 1
+        if changed:
+            out.append(new)
+    return out
